@@ -106,7 +106,10 @@ fn decode_inner(buf: &mut BytesMut) -> Result<Option<(RequestId, (Tag, Vec<Contr
         (maybe_controls, None)
     };
     let controls = match controls {
-        Some(controls) => parse_controls(controls),
+        Some(controls) => match parse_controls(controls) {
+            Some(controls) => controls,
+            None => return Err(decoding_error),
+        },
         None => vec![],
     };
     let msgid = match tags
